@@ -24,6 +24,10 @@ CHECKS = {
          "TLC exhaustively explores the set-operator model GenSets (every subset of 3 keys per operand, 2-4 operands in every order, conflicting measures, chained statements) and checks algebraic laws and well-formedness in every state; every explored transition is a candidate test of run() (B1, seeded sample in the quick tier) and random larger inputs are validated by the trace specification VTLOperators_Trace (B2).",
          "Numbers compared with 1e-6 relative tolerance.",
          "TLA+ executable semantics, TLC enumeration replayed into run(), TLC trace validation"),
+ 'C08': ('model_checking',
+         "VTLCalendar is the Gregorian calendar, ISO-8601 week numbering and the VTL periods in TLA+ integer arithmetic; for every requested year (quick: boundary years - leap, 53-week, century - plus seeded ones; thorough: EVERY year 1900-2100) TLC checks the theorems W53 exists <=> the ISO year has 53 weeks, D366 <=> leap year, shifting by k then -k is the identity for every period and every k in -60..60 (hence injective), and emits the expected tables. The engine is replayed in bulk: timeshift over ALL periods of all six indicators for each shift, time_agg for every (source, target) indicator pair incl. the error for finer targets, period_indicator / getyear on periods, getyear / getmonth / dayofmonth / dayofyear / cast(date, time_period) / time_agg(first|last) on EVERY day, dateadd (6 units x 10 amounts) and datediff on month-boundary days; generated series with gaps (timeshift, fill_time_series single / all, flow_to_stock, stock_to_flow) are validated by TLC (VTLTimeSeries_Trace). VTLCalendar itself is checked against Python datetime on every emitted day.",
+         "Not judged (spec/READINGS.md 16-19): time_agg to the same indicator, a week straddling two target periods, getmonth / dayofmonth / dayofyear of non-daily periods; series carry small integers without nulls; quick tier uses a seeded subset of shifts per run (all shifts in the model).",
+         "TLC evaluation of the calendar model over the complete period domain, bulk replay into run(), trace validation of series operators"),
  'C10': ('model_checking',
          "Every successful run made by the random drivers of all modelled operator families and of a sample (thorough: all) of the ~1260 upstream corpus scripts is recorded as one event holding the structures semantic_analysis() predicts and the structures, column order and typed values run() returns; TLC validates each event against VTLStruct_Trace: same result names, components (names, roles, types, nullability, order), column order, every value of its component's type, identifiers non-null and unique, non-nullable components never null, at most one datapoint without identifiers. The machine invariant Closure (everything the abstract statement machine stores is WellFormed) is checked by TLC in the generation models of C01-C05.",
          "For scripts outside the modelled subset the oracle of the structure is semantic_analysis() itself, exactly as the property states. Temporal values are recognised by the documented output patterns; at most 400 datapoints per result are validated.",
